@@ -524,6 +524,19 @@ func main() {
 			_, ok := ld.funcs[k]
 			fmt.Printf("%-50s found=%v props=%v\n", k, ok, allProps(sf.Funcs[k]))
 		}
+	case "locks":
+		// the lock-discipline obligations (C20) on their own
+		ld, sf := mustLoad(opt)
+		bad := 0
+		for _, so := range lockDiscipline(ld, sf) {
+			st := "ok  "
+			if !so.OK {
+				st = "FAIL"
+				bad++
+			}
+			fmt.Printf("%s %s\n     %s\n", st, so.Name, so.Detail)
+		}
+		fmt.Printf("%d failed\n", bad)
 	case "mods":
 		// debugging aid: the static write set of a function and of each of its direct callees
 		ld, sf := mustLoad(opt)
